@@ -61,6 +61,12 @@ addresses 4 (listed twice), 5 and 6 are new: needed = `[4, 5, 6]`, the attempt f
 ids 7 and 8 (links ADDED in the same event). -/
 def exReload : Ev := .reload 9 [3, 1, 4, 4, 5, 6] [some 7, none, some 8]
 
+/-- The example run: the reload `exReload`; a datagram for the removed conn id 2; one for the retained link 1; a
+client datagram; a SECOND reload that re-adds address 2 (new conn id 9) and removes addresses 4 and 6; a
+housekeeping tick. -/
+def exRun : List Ev :=
+  [exReload, .uplink 10 2 exData, .uplink 11 1 exData, .client 12 exData, .reload 20 [1, 2, 3] [some 9], .hk 21]
+
 /-- What the examples read off a link. -/
 def exView (l : FLink Int) : (Nat × Nat × Nat × Nat) × (Int × Bool × Bool) :=
   ((l.core.connId, l.addr, l.queue.length, l.core.log.length), (l.core.window, l.core.connected, l.schedulable))
@@ -302,6 +308,15 @@ theorem reload_untouched (s : Sys F) (now : Nat) (addrs : List Nat) (outs : List
     (step s (.reload now addrs outs)).2.hkErr = false :=
   ⟨rfl, rfl, rfl, rfl, rfl, rfl, rfl, rfl, rfl, rfl⟩
 
+-- non-vacuity of `reload_untouched` on a state whose fields are not the defaults: the client stays known, the
+-- registration manager, configuration and injection lists are the same terms, nothing is emitted; the selector's
+-- anchor (it named the removed link 2) is forgotten (`C11_anchor_forgotten_iff_removed`)
+example :
+    exS.clientKnown = true ∧ (step exS exReload).1.clientKnown = true ∧ (step exS exReload).1.reg = exS.reg ∧
+    (step exS exReload).1.cfg = exS.cfg ∧ (step exS exReload).2.wire = [] ∧ (step exS exReload).2.client = [] ∧
+    exS.lastSelected = some 1 ∧ (step exS exReload).1.lastSelected = none :=
+  ⟨rfl, rfl, rfl, rfl, rfl, rfl, rfl, by decide⟩
+
 /-! ## 2. C11: the hysteresis anchor -/
 
 /-- **The anchor is forgotten iff something was removed.**  `last_selected_idx` is an INDEX into the connections
@@ -389,6 +404,14 @@ example :
     s.trk.get 5 100 = some 2 ∧ (step s (.reload 9 [1] [])).1.trk.get 5 100 = none ∧
       (step s (.reload 9 [1] [])).1.trk.get 6 100 = some 1 := by
   decide
+
+-- on `exS` / `exRun`: sequence number 41 is attributed to link 2; the reload removes link 2 and the attribution with
+-- it; the client datagram of the run (the same number) is routed to link 1, and at the end of the run — two reloads —
+-- the tracker names link 1, a link that is present
+example :
+    exS.trk.get 41 5000 = some 2 ∧ (step exS exReload).1.trk.get 41 5000 = none ∧
+    (KaTrace.runEvs exS exRun).trk.get 41 5000 = some 1 ∧ ids (KaTrace.runEvs exS exRun).links = [1, 3, 9] :=
+  ⟨by decide +kernel, by decide +kernel, by decide +kernel, by decide +kernel⟩
 
 /-! ## 4. Invariants over runs with reloads -/
 
@@ -502,12 +525,6 @@ theorem Inv_run_reload (s : Sys F) (h : Inv s) (evs : List Ev) (hf : FreshRun s 
   induction evs generalizing s with
   | nil => exact h
   | cons e es ih => exact ih (step s e).1 (Inv_step_fresh s h e hf.1) hf.2
-
-/-- The example run: the reload `exReload`; a datagram for the removed conn id 2; one for the retained link 1; a
-client datagram; a SECOND reload that re-adds address 2 (new conn id 9) and removes addresses 4 and 6; a
-housekeeping tick. -/
-def exRun : List Ev :=
-  [exReload, .uplink 10 2 exData, .uplink 11 1 exData, .client 12 exData, .reload 20 [1, 2, 3] [some 9], .hk 21]
 
 -- non-vacuity of `Inv_step_reload` / `Inv_run_reload`: `exS` satisfies `Inv`, BOTH reloads of `exRun` satisfy the
 -- freshness hypothesis in the state the run has reached (`FreshRun`, decided), the run is not reload-free, and the
